@@ -207,8 +207,12 @@ func errorExit(blk Block) bool {
 		return false
 	}
 	if len(r.Vals) == 1 && r.Vals[0] == "<tail>" && len(blk) >= 2 {
-		if call, ok := blk[len(blk)-2].(*CallN); ok && call.Fn != nil && call.Fn.Name() == "Errorf" {
-			return true
+		// `return fmt.Errorf(…)` / `return pr.BeautifulError(…)`: a tail call that builds an error value
+		if call, ok := blk[len(blk)-2].(*CallN); ok && call.Fn != nil && call.Tail {
+			n := call.Fn.Name()
+			if n == "Errorf" || n == "New" || strings.Contains(n, "Error") {
+				return true
+			}
 		}
 	}
 	return len(r.Vals) > 0 && r.Vals[len(r.Vals)-1] != "nil" && r.Vals[len(r.Vals)-1] != "<tail>"
